@@ -2,6 +2,8 @@
 
 from __future__ import annotations
 
+import contextlib
+
 import typing as tp
 
 from typelib import ctx, graph, serdes
@@ -101,7 +103,13 @@ class DelayedMarshaller(routines.AbstractMarshaller[T]):
     def resolved(self) -> routines.AbstractMarshaller[T]:
         """The resolved marshaller."""
         if self._resolved is None:
-            self._resolved = marshaller(self.t)
+            # References compare by their text: look the routine up by the type the
+            #   reference stands for right now, not by whatever carried that name before.
+            t = self.t
+            if inspection.isforwardref(t):
+                with contextlib.suppress(NameError, TypeError, AttributeError):
+                    t = refs.evaluate(t)
+            self._resolved = marshaller(t)
             for attr in self._resolved.__slots__:
                 setattr(self, attr, getattr(self._resolved, attr))
         return self._resolved
